@@ -35,7 +35,9 @@ RULE = (
     "each discipline of the numpy model on it and (2) equal the exact solution, within the bound implied by the "
     "requested tolerance; (3) configurations agree pairwise.  Non-trivial = the system has a cycle through >=2 "
     "disciplines whose coupling outputs have unequal sizes and the MDA needed >=2 iterations; distinct = structural "
-    "hash of (system, inputs, configuration)."
+    "hash of (system, inputs, configuration).  A second drive runs, on cheap linear rings (2-4 disciplines), MDAJacobi "
+    "and MDAGaussSeidel with every acceleration method x over-relaxation factor in {0.6,0.8,1,1.2}, a drawn scaling: per case the two "
+    "combinations Jacobi + MinimumPolynomial at 0.6 and 0.8 plus both classes x all accelerations at one drawn factor, same oracles (non-trivial = >= 2 iterations)."
 )
 ASSUMPTIONS = [
     "well-posed = the one-sweep map of the system is a max-norm contraction with factor q <= 0.3 (by construction), "
@@ -657,8 +659,66 @@ def _case_mda(p, ctx):
     ctx.sample({"oracle": "mda", "case": p})
 
 
-ORACLES = {"mda": case_mda}
+# --------------------------------------------------------------------------- acceleration x relaxation drive
+ACC_OMEGAS = [0.6, 0.8, 1.0, 1.2]
+ACC_COMBINATIONS = [(cls, acc, omega) for cls in ("MDAJacobi", "MDAGaussSeidel") for acc in ACCELERATIONS for omega in ACC_OMEGAS]
+# combinations in which a wrong pairing (iterate, residual) inside RelaxationAcceleration only shows on a few
+# percent of the systems: run on every case
+ACC_ALWAYS = [("MDAJacobi", "MinimumPolynomial", 0.6), ("MDAJacobi", "MinimumPolynomial", 0.8)]
+
+
+@st.composite
+def acceleration_cases(draw):
+    system = draw(coupled_systems(max_disc=4, all_strong=True, nonlinear=False, extra_outputs=False))
+    omega = draw(st.sampled_from(ACC_OMEGAS))  # per case: both classes x every acceleration at one over-relaxation factor
+    drawn = [k for k, c in enumerate(ACC_COMBINATIONS) if c[2] == omega and tuple(c) not in ACC_ALWAYS]
+    return {"system": system, "values": draw(input_values(system)), "tol": draw(st.sampled_from([1e-6, 1e-10])),
+            "scaling": draw(st.sampled_from(SCALINGS)), "start": draw(st.sampled_from(["grid", "grid", "near"])),
+            "combinations": [list(c) for c in ACC_ALWAYS] + [list(ACC_COMBINATIONS[k]) for k in drawn]}
+
+
+def case_acceleration(p, ctx):
+    """Every acceleration method x over-relaxation factor x {Jacobi, Gauss-Seidel} on cheap linear rings; same oracles."""
+    with warnings.catch_warnings():
+        warnings.simplefilter("ignore")
+        model = CoupledSystem(p["system"])
+        values = {k: np.array(v, dtype=float) for k, v in p["values"].items()}
+        x = {n: values[n] for n in model.x_names}
+        sol = model.solve(x)
+        defaults = dict(p["values"])
+        if p.get("start") == "near":  # as in the main drive: small initial residuals
+            for n in model.out_names:
+                values[n] = np.round(64.0 * sol[n]) / 64.0 + 0.0
+                defaults[n] = values[n].tolist()
+        e0 = max((float(np.max(np.abs(values[n] - sol[n]))) for n in model.couplings()), default=0.0)
+        results = []
+        for cls, acc, omega in p["combinations"]:
+            cfg = {"kind": "solver", "tol": p["tol"], "scaling": p["scaling"], "warm": False, "twice": False, "perm": [0, 1, 2, 3, 4],
+                   "budget": BUDGET, "solver": {"cls": cls, "acc": acc, "omega": omega, "nr_solver": "DEFAULT", "nr_matrix": "matrix",
+                                                "qn_method": "hybr", "qn_grad": False}}
+            if is_aitken_with_relaxation(cfg) and ctx.known("aitken_with_relaxation"):
+                continue
+            mda = build_mda(cfg, build_disciplines(model, defaults, "SimpleGrammar", reject_non_finite=True))
+            tag = f"{cls}/{acc}/{omega}"
+            ctx.cls("acc_drive:" + tag, "acc_drive_scaling:" + p["scaling"])
+            res = execute_and_check(ctx, mda, model, cfg, x, sol, e0, tag)
+            if res is None:
+                continue
+            n_it = iterations_of(mda)
+            ctx.extra["max_iterations_acceleration_drive"] = max(ctx.extra.get("max_iterations_acceleration_drive", 0), n_it)
+            results.append((tag, res[0], res[1]))
+            if n_it >= 2 and len(model.sizes) > 0:
+                ctx.nontriv(("acc", p["system"], p["values"], p["tol"], tag))
+        for a in range(len(results)):
+            for b in range(a + 1, len(results)):
+                diff = max((float(np.max(np.abs(results[a][1][n] - results[b][1][n]), initial=0.0)) for n in model.out_names), default=0.0)
+                ctx.check(diff <= results[a][2] + results[b][2], "agreement",
+                          f"{results[a][0]} and {results[b][0]} differ by {diff:.3e} > {results[a][2] + results[b][2]:.3e}")
+
+
+ORACLES = {"mda": case_mda, "acceleration": case_acceleration}
 
 
 def run(ctx):
     ctx.drive("mda", cases(), case_mda, quick=450, thorough=2500)
+    ctx.drive("acceleration", acceleration_cases(), case_acceleration, quick=110, thorough=600)
